@@ -64,6 +64,7 @@ pub ghost struct Attr {
     pub raw: Seq<u8>,     // value bytes as written between the quotes (what `Attribute::value` holds)
     pub val: Seq<char>,   // value with entity / character references resolved (what `decode_and_unescape_value` returns)
     pub val_ok: bool,     // `decode_and_unescape_value` succeeds
+    pub err: bool,        // malformed attribute: the `Attributes` iterator yields Err(AttrError) for it
 }
 pub ghost struct Ev {
     pub kind: EvKind,
@@ -161,6 +162,46 @@ impl<'a> BytesCData<'a> {
     pub uninterp spec fn ev(&self) -> Ev;
 }
 
+// TRUSTED: A-xml -- quick_xml::events::attributes::{Attribute, Attributes}: `BytesStart::attributes()` iterates over the attributes of
+// the start tag in document order; each item is Ok(Attribute { key, value }) with the qualified attribute name and the RAW value bytes
+// borrowed from the tag (`Cow::Borrowed`; nothing is unescaped), or Err(AttrError) for a malformed attribute.
+pub struct Attribute<'a> { pub key: QName<'a>, pub value: Cow<'a, [u8]> }
+#[verifier::external_body]
+pub struct Attributes<'a> { _p: core::marker::PhantomData<&'a ()> }
+impl<'a> Attributes<'a> {
+    /// attributes not yet handed out
+    pub uninterp spec fn rem(&self) -> Seq<Attr>;
+}
+impl<'a> Iterator for Attributes<'a> {
+    type Item = Result<Attribute<'a>, quick_xml::events::attributes::AttrError>;
+    // TRUSTED: A-xml
+    #[verifier::external_body]
+    fn next(&mut self) -> (r: Option<Result<Attribute<'a>, quick_xml::events::attributes::AttrError>>)
+        ensures
+            old(self).rem().len() == 0 ==> r is None && final(self).rem() == old(self).rem(),
+            old(self).rem().len() > 0 ==> r is Some && final(self).rem() == old(self).rem().skip(1)
+                && (old(self).rem()[0].err ==> r->Some_0 is Err)
+                && (!old(self).rem()[0].err ==> r->Some_0 is Ok && (r->Some_0->Ok_0).key.0@ == old(self).rem()[0].key
+                     && ((r->Some_0->Ok_0).value matches Cow::Borrowed(v) && v@ == old(self).rem()[0].raw)),
+    { unimplemented!() }
+}
+impl<'a> BytesStart<'a> {
+    // TRUSTED: A-xml
+    #[verifier::external_body]
+    pub fn attributes(&self) -> (r: Attributes<'_>) ensures r.rem() == self.ev().attrs { unimplemented!() }
+}
+pub enum AttrLookup { Malformed, Found(Seq<u8>), Absent }
+/// XML: the value of the attribute named `key` in an attribute list (names are unique in a well-formed start tag, so the first
+/// match is the match); Malformed if a syntactically broken attribute precedes it
+pub open spec fn attr_scan(attrs: Seq<Attr>, key: Seq<u8>) -> AttrLookup
+    decreases attrs.len()
+{
+    if attrs.len() == 0 { AttrLookup::Absent }
+    else if attrs[0].err { AttrLookup::Malformed }
+    else if attrs[0].key =~= key { AttrLookup::Found(attrs[0].raw) }
+    else { attr_scan(attrs.skip(1), key) }
+}
+
 /// the result `read_event_into` delivers for the ghost event e
 pub open spec fn ev_result<'b>(r: Result<Event<'b>, quick_xml::Error>, e: Ev) -> bool {
     match e.kind {
@@ -223,7 +264,11 @@ impl<'a> XlReader<'a> {
 pub proof fn axiom_bytelits()
     ensures
         b"r"@ == n_r(), b"t"@ == n_t(), b"rPh"@ == n_rph(), b"si"@ == n_si(), b"sst"@ == n_sst(),
+        b"mergeCell"@ == n_mergecell(), b"mergeCells"@ == n_mergecells(), b"ref"@ == n_ref(),
 {}
+pub open spec fn n_mergecell() -> Seq<u8> { seq![0x6du8, 0x65u8, 0x72u8, 0x67u8, 0x65u8, 0x43u8, 0x65u8, 0x6cu8, 0x6cu8] }
+pub open spec fn n_mergecells() -> Seq<u8> { seq![0x6du8, 0x65u8, 0x72u8, 0x67u8, 0x65u8, 0x43u8, 0x65u8, 0x6cu8, 0x6cu8, 0x73u8] }
+pub open spec fn n_ref() -> Seq<u8> { seq![0x72u8, 0x65u8, 0x66u8] }
 pub open spec fn n_r() -> Seq<u8> { seq![0x72u8] }
 pub open spec fn n_t() -> Seq<u8> { seq![0x74u8] }
 pub open spec fn n_rph() -> Seq<u8> { seq![0x72u8, 0x50u8, 0x68u8] }
@@ -732,5 +777,207 @@ proof fn lemma_sst_end(ev: Seq<Ev>, i: int, s: SstSt, strict: bool)
                     }
 //@@ end
 //@@ endimpl
+
+// =====================================================================================================================
+// A1 references: spec functions COPIED from unit a1 (units/a1/unit.rs), where get_row_and_optional_column / get_row_column / get_row
+// are PROVED against them.  Here the three decoders are external_body with the contract clauses of unit a1 (assumed here, proved there).
+// =====================================================================================================================
+pub open spec fn is_digit(c: u8) -> bool { 0x30 <= c <= 0x39 }
+pub open spec fn is_upper(c: u8) -> bool { 0x41 <= c <= 0x5a }
+pub open spec fn is_lower(c: u8) -> bool { 0x61 <= c <= 0x7a }
+pub open spec fn is_letter(c: u8) -> bool { is_upper(c) || is_lower(c) }
+pub open spec fn letter_val(c: u8) -> nat { if is_upper(c) { (c - 0x41 + 1) as nat } else { (c - 0x61 + 1) as nat } }
+pub open spec fn dec10(s: Seq<u8>) -> nat decreases s.len() { if s.len() == 0 { 0 } else { dec10(s.drop_last()) * 10 + (s.last() - 0x30) as nat } }
+pub open spec fn b26(s: Seq<u8>) -> nat decreases s.len() { if s.len() == 0 { 0 } else { b26(s.drop_last()) * 26 + letter_val(s.last()) } }
+pub open spec fn all_digits(s: Seq<u8>) -> bool { forall|i: int| 0 <= i < s.len() ==> is_digit(#[trigger] s[i]) }
+pub open spec fn all_letters(s: Seq<u8>) -> bool { forall|i: int| 0 <= i < s.len() ==> is_letter(#[trigger] s[i]) }
+pub open spec fn a1_shape(s: Seq<u8>, nl: int) -> bool {
+    0 <= nl <= s.len() && all_letters(s.subrange(0, nl)) && all_digits(s.subrange(nl, s.len() as int))
+}
+pub open spec fn a1_value(s: Seq<u8>, nl: int) -> (u32, Option<u32>) {
+    ((dec10(s.subrange(nl, s.len() as int)) - 1) as u32, if nl > 0 { Some((b26(s.subrange(0, nl)) - 1) as u32) } else { None })
+}
+pub open spec fn a1_small(s: Seq<u8>, nl: int) -> bool { a1_shape(s, nl) && s.len() - nl <= 9 && nl <= 6 }
+/// s is a cell reference (letters then digits, row >= 1) with nl letters
+pub open spec fn a1_cell(s: Seq<u8>, nl: int) -> bool { a1_small(s, nl) && nl >= 1 && dec10(s.subrange(nl, s.len() as int)) >= 1 }
+/// s is a row reference (optional letters, digits, row >= 1)
+pub open spec fn a1_rowref(s: Seq<u8>, nl: int) -> bool { a1_small(s, nl) && dec10(s.subrange(nl, s.len() as int)) >= 1 }
+/// the 0-based (row, column) a cell reference denotes
+pub open spec fn cell_of(s: Seq<u8>) -> Option<(u32, u32)> {
+    if exists|nl: int| a1_cell(s, nl) {
+        let nl = choose|nl: int| a1_cell(s, nl);
+        Some((a1_value(s, nl).0, (b26(s.subrange(0, nl)) - 1) as u32))
+    } else { None }
+}
+/// the 0-based row a row reference (the `r` attribute of `row`) denotes
+pub open spec fn row_of(s: Seq<u8>) -> Option<u32> {
+    if exists|nl: int| a1_rowref(s, nl) { let nl = choose|nl: int| a1_rowref(s, nl); Some(a1_value(s, nl).0) } else { None }
+}
+/// ST_Ref (ECMA-376 18.18.62): `A1` or `A1:B2` -- a single reference denotes the one-cell area
+pub open spec fn dim_of(s: Seq<u8>) -> Option<Dimensions> {
+    let c = colon_at(s, 0);
+    if c >= s.len() {
+        match cell_of(s) { Some(p) => Some(Dimensions { start: p, end: p }), None => None }
+    } else {
+        match (cell_of(s.subrange(0, c)), cell_of(s.subrange(c + 1, s.len() as int))) {
+            (Some(p), Some(q)) => if p.0 <= q.0 && p.1 <= q.1 { Some(Dimensions { start: p, end: q }) } else { None },
+            _ => None,
+        }
+    }
+}
+
+//@@ item src/xlsx/mod.rs const MAX_COLUMNS
+//@@ item src/xlsx/mod.rs const MAX_ROWS
+// TRUSTED: contract of unit a1 (clauses C01,C15,C17.a1_decode / a1_zero_row_rejected / a1_malformed_rejected), PROVED there on the same text
+//@@ fn src/xlsx/mod.rs get_row_and_optional_column props=C01 ret=r external_body
+//@@ sig
+    ensures
+        forall|nl: int| #[trigger] a1_small(range@, nl) && dec10(range@.subrange(nl, range@.len() as int)) >= 1 ==>
+            r == Ok::<(u32, Option<u32>), XlsxError>(a1_value(range@, nl)),
+        forall|nl: int| #[trigger] a1_small(range@, nl) && dec10(range@.subrange(nl, range@.len() as int)) == 0 ==> r is Err,
+        (forall|nl: int| !#[trigger] a1_shape(range@, nl)) ==> r is Err,
+//@@ end
+// as in unit a1 (re-verified here from the contract above)
+//@@ fn src/xlsx/mod.rs get_row_column props=C01,C17 ret=r
+//@@ sig
+    ensures
+        //# C01,C17.a1_cell_decode
+        forall|nl: int| #[trigger] a1_small(range@, nl) && nl >= 1 && dec10(range@.subrange(nl, range@.len() as int)) >= 1 ==>
+            r == Ok::<(u32, u32), XlsxError>((a1_value(range@, nl).0, (b26(range@.subrange(0, nl)) - 1) as u32)),
+        //# C01,C17.a1_cell_malformed_rejected
+        (forall|nl: int| !#[trigger] a1_shape(range@, nl)) ==> r is Err,
+//@@ end
+//@@ fn src/xlsx/mod.rs get_row props=C01 ret=r
+//@@ sig
+    ensures
+        //# C01.a1_row_decode
+        forall|nl: int| #[trigger] a1_small(range@, nl) && dec10(range@.subrange(nl, range@.len() as int)) >= 1 ==>
+            r == Ok::<u32, XlsxError>(a1_value(range@, nl).0),
+        //# C01.a1_row_malformed_rejected
+        (forall|nl: int| !#[trigger] a1_shape(range@, nl)) ==> r is Err,
+//@@ closure 0
+    -> (res: u32) ensures res == __c0_0.0
+//@@ end
+// TRUSTED: get_dimension (split at ':' + get_row_column on each part + `collect::<Result<Vec<_>, _>>()`: iterator adapters outside
+// Verus' reach) -- assumed: an ST_Ref whose corners are in order decodes to its two corners through get_row_column; one reference
+// gives start == end.  (Its `parts[1].0 - parts[0].0` underflow on reversed references is a C06 finding of unit a1 / colname.)
+//@@ fn src/xlsx/mod.rs get_dimension props=C17 ret=r external_body
+//@@ sig
+    ensures
+        dim_of(dimension@) is Some ==> r == Ok::<Dimensions, XlsxError>(dim_of(dimension@)->Some_0),
+//@@ end
+
+proof fn lemma_cell_of(s: Seq<u8>, nl: int)
+    requires a1_cell(s, nl),
+    ensures cell_of(s) == Some((a1_value(s, nl).0, (b26(s.subrange(0, nl)) - 1) as u32)),
+{
+    // the split into letters ++ digits is unique
+    let m = choose|m: int| a1_cell(s, m);
+    if m < nl { assert(is_digit(s.subrange(m, s.len() as int)[0])); assert(is_letter(s.subrange(0, nl)[m])); }
+    if m > nl { assert(is_letter(s.subrange(0, m)[nl])); assert(is_digit(s.subrange(nl, s.len() as int)[0])); }
+}
+
+//@@ fn src/xlsx/mod.rs get_attribute props=C01,C17 ret=r
+//@@ r6 0
+//@@ sig
+    ensures
+        //# C01,C17.attribute_lookup
+        match attr_scan(atts.rem(), n.0@) {
+            AttrLookup::Found(v) => r matches Ok(Some(x)) && x@ == v,
+            AttrLookup::Absent => r matches Ok(None),
+            AttrLookup::Malformed => r is Err,
+        },
+//@@ loop 0
+        invariant
+            attr_scan(__it0.rem(), n.0@) == attr_scan(atts.rem(), n.0@),
+        decreases __it0.rem().len(),
+//@@ end
+
+// =====================================================================================================================
+// C17 -- merged regions.  ECMA-376 18.3.1.55 mergeCells (CT_MergeCells): mergeCell+ ; 18.3.1.54 mergeCell: empty element with the
+// required attribute ref (ST_Ref).  The regions of a sheet are the refs of its mergeCell elements in document order.
+// =====================================================================================================================
+pub ghost struct McRes { pub ok: bool, pub regions: Seq<Dimensions>, pub end: int }
+/// content of a `mergeCells` element from event i on (the start tag has been read)
+pub open spec fn mc_scan(ev: Seq<Ev>, i: int, acc: Seq<Dimensions>) -> McRes
+    decreases ev.len() - i
+{
+    if i < 0 || i >= ev.len() { McRes { ok: false, regions: acc, end: i } }
+    else {
+        let e = ev[i];
+        if e.kind is Error { McRes { ok: false, regions: acc, end: i } }
+        else if e.kind is Start {
+            if e.local() =~= n_mergecell() {
+                match attr_scan(e.attrs, n_ref()) {
+                    AttrLookup::Found(raw) => match dim_of(raw) {
+                        Some(d) => mc_scan(ev, i + 1, acc.push(d)),
+                        None => McRes { ok: false, regions: acc, end: i },
+                    },
+                    _ => McRes { ok: false, regions: acc, end: i },     // ref is a required attribute
+                }
+            } else { McRes { ok: false, regions: acc, end: i } }
+        } else if e.kind is End {
+            if e.local() =~= n_mergecells() { McRes { ok: true, regions: acc, end: i } }
+            else if e.local() =~= n_mergecell() { mc_scan(ev, i + 1, acc) }
+            else { McRes { ok: false, regions: acc, end: i } }
+        } else { mc_scan(ev, i + 1, acc) }
+    }
+}
+proof fn lemma_mc_end(ev: Seq<Ev>, i: int, acc: Seq<Dimensions>)
+    requires 0 <= i, mc_scan(ev, i, acc).ok,
+    ensures i <= mc_scan(ev, i, acc).end < ev.len(),
+    decreases ev.len() - i,
+{
+    if i < ev.len() {
+        let e = ev[i];
+        if e.kind is Start {
+            if let AttrLookup::Found(raw) = attr_scan(e.attrs, n_ref()) { if let Some(d) = dim_of(raw) { lemma_mc_end(ev, i + 1, acc.push(d)); } }
+        } else if e.kind is End { if !(e.local() =~= n_mergecells()) { lemma_mc_end(ev, i + 1, acc); } }
+        else { lemma_mc_end(ev, i + 1, acc); }
+    }
+}
+
+//@@ fn src/xlsx/mod.rs read_merge_cells props=C17 ret=r
+//@@ r6 1
+//@@ replace /XlsxError::XmlAttr/ Verus: "using a datatype constructor as a function value" unsupported; eta-expanded
+|e| XlsxError::XmlAttr(e)
+//@@ sig
+    ensures
+        //# C17.merge_reader_frame
+        final(xml).events() == old(xml).events() && final(xml).pos() >= old(xml).pos(),
+        //# C17.merge_regions_in_order
+        ({ let m = mc_scan(old(xml).events(), old(xml).pos() as int, Seq::empty());
+           m.ok ==> r is Ok && r->Ok_0@ == m.regions && final(xml).pos() == m.end + 1 }),
+//@@ before /let mut merge_cells = /
+    let ghost ev = xml.events();
+    let ghost p0 = xml.pos() as int;
+    let ghost tot = mc_scan(ev, p0, Seq::empty());
+    proof { axiom_bytelits(); if tot.ok { lemma_mc_end(ev, p0, Seq::empty()); } }
+//@@ loop 0
+        invariant_except_break
+            tot.ok ==> mc_scan(ev, xml.pos() as int, merge_cells@) == tot,
+        invariant
+            ev == old(xml).events(), p0 == old(xml).pos(), xml.events() == ev, xml.pos() >= p0,
+            tot == mc_scan(ev, p0, Seq::empty()),
+            b"mergeCell"@ == n_mergecell(), b"mergeCells"@ == n_mergecells(), b"ref"@ == n_ref(),
+            tot.ok ==> xml.pos() <= tot.end + 1 && tot.end < ev.len(),
+        ensures
+            tot.ok ==> merge_cells@ == tot.regions && xml.pos() == tot.end + 1,
+        decreases xml.left(),
+//@@ before /match xml\.read_event_into\(&mut buffer\)/
+        let ghost pos = xml.pos() as int;
+        let ghost mc0 = merge_cells@;
+        proof { if tot.ok { lemma_mc_end(ev, pos, mc0); } }
+//@@ loop 1
+                    invariant
+                        attr_scan(__it1.rem(), n_ref()) == attr_scan(ev[pos].attrs, n_ref()),
+                        merge_cells@ == mc0, b"ref"@ == n_ref(),
+                        xml.events() == ev, xml.pos() == pos + 1, pos < ev.len(),
+                        ev == old(xml).events(), p0 == old(xml).pos(), pos >= p0,
+                    ensures
+                        xml.events() == ev, xml.pos() == pos + 1,
+                        tot.ok && mc_scan(ev, pos, mc0) == tot ==> mc_scan(ev, pos + 1, merge_cells@) == tot,
+                    decreases __it1.rem().len(),
+//@@ end
 } // verus!
 fn main() {}
